@@ -88,6 +88,69 @@ def digest(obj):
     return hashlib.sha1(json.dumps(obj, sort_keys=True).encode()).hexdigest()[:16]
 
 
+
+def validate(ex, scratch, traces, module, cfg, per_jvm=1500, heap="2g", extra_env=None, splitter=None):
+    """(d): split every trace at history boundaries and validate the pieces with TLC in parallel."""
+    pieces = []
+    for tr in traces:
+        n = vlib.count_lines(tr)
+        if n == 0:
+            continue
+        k = max(1, min(vlib.NCPU, n // per_jvm))
+        pieces += vlib.split_trace(tr, k, scratch, os.path.basename(tr)[:-7])
+
+    def run_val(piece):
+        path, _ = piece
+        env = {"TRACE": path}
+        env.update(extra_env or {})
+        r = tlc(scratch, module, cfg, env=env, workers=1, timeout=3000, heap=heap)
+        require_ok(r, "trace validation of %s" % path)
+        return (path, r)
+
+    t1 = time.time()
+    vals = list(ex.map(run_val, pieces))
+    log("validation of %d trace files by %s done in %.1fs" % (len(pieces), module, time.time() - t1))
+    return vals
+
+
+def collect(rep, vals, pid, nontrivial=None, key=None, is_first=lambda ev: ev.get("first", True), sample_ok=None):
+    """Fold TLC's verdict lines and the recorded events into the report."""
+    for path, r in vals:
+        rep.states += r.distinct
+        rep.transitions += r.generated
+        bad_lines = {}
+        foreign = set()
+        for v in r.verdicts:
+            # <<"V", line, case, property, reason>>
+            if v[3] != pid:
+                foreign.add(int(v[2]))
+            else:
+                bad_lines[int(v[1])] = v[4]
+        with open(path) as f:
+            for i, line in enumerate(f, 1):
+                ev = json.loads(line)
+                rep.events += 1
+                if is_first(ev):
+                    rep.cases += 1
+                nt = nontrivial(ev) if nontrivial else True
+                if nt:
+                    rep.nontrivial.add(digest(key(ev) if key else ev))
+                if len(rep.samples) < 3 and nt and i % 7 == 0:
+                    rep.samples.append(ev)
+                if ev.get("n") in foreign:
+                    rep.extra["skipped_foreign_histories"] = rep.extra.get("skipped_foreign_histories", 0) + 1
+                    continue
+                if i in bad_lines:
+                    reason = bad_lines[i]
+                    if reason.startswith("kf:"):
+                        fid = reason[3:]
+                        rep.kf.setdefault(fid, {"count": 0, "replay": ev})["count"] += 1
+                    else:
+                        rep.bad.append((reason, ev))
+    if not rep.samples and rep.events and vals:
+        rep.samples.append(vlib.read_line(vals[0][0], 1))
+
+
 # ------------------------------------------------------------------------------------------------
 # C09-C14: list operations
 # ------------------------------------------------------------------------------------------------
@@ -218,62 +281,62 @@ def check_ops(pid, tier, seed, scratch, replay):
         log("generation + replay done in %.1fs" % (time.time() - t0))
 
         # (d) validate
-        pieces = []
-        for tr in traces:
-            n = vlib.count_lines(tr)
-            if n == 0:
-                continue
-            k = max(1, min(vlib.NCPU, n // 1500))
-            pieces += vlib.split_trace(tr, k, scratch, os.path.basename(tr)[:-7])
-
-        def run_val(piece):
-            path, _ = piece
-            r = tlc(scratch, "TraceOps", "TraceOps.cfg", env={"TRACE": path}, workers=1, timeout=3000, heap="2g")
-            require_ok(r, "trace validation of %s" % path)
-            return (path, r)
-
-        t1 = time.time()
-        vals = list(ex.map(run_val, pieces))
-        log("validation of %d trace files done in %.1fs" % (len(pieces), time.time() - t1))
+        vals = validate(ex, scratch, traces, "TraceOps", "TraceOps.cfg")
         mc = mc_f.result()
     rep.add_mc(mc_cfg, mc)
-
-    for path, r in vals:
-        rep.states += r.distinct
-        rep.transitions += r.generated
-        bad_lines = {}
-        foreign = set()   # cases in which a step belonging to another property was rejected: the rest of the
-                          # history is not a valid instance of this property's quantifier
-        for v in r.verdicts:
-            # <<"V", line, case, property, reason>>
-            if v[3] != pid:
-                foreign.add(int(v[2]))
-            else:
-                bad_lines[int(v[1])] = v[4]
-        with open(path) as f:
-            for i, line in enumerate(f, 1):
-                ev = json.loads(line)
-                rep.events += 1
-                if ev["first"]:
-                    rep.cases += 1
-                if ops_nontrivial(pid, ev):
-                    rep.nontrivial.add(digest([ev["op"], ev["a"], ev["b"], ev["pre"], ev["pre2"]]))
-                if len(rep.samples) < 3 and ops_nontrivial(pid, ev) and i % 7 == 0:
-                    rep.samples.append(ev)
-                if ev["n"] in foreign:
-                    rep.extra["skipped_foreign_histories"] = rep.extra.get("skipped_foreign_histories", 0) + 1
-                    continue
-                if i in bad_lines:
-                    reason = bad_lines[i]
-                    if reason.startswith("kf:"):
-                        fid = reason[3:]
-                        rep.kf.setdefault(fid, {"count": 0, "replay": ev})["count"] += 1
-                    else:
-                        rep.bad.append((reason, ev))
-    if not rep.samples and rep.events:
-        rep.samples.append(vlib.read_line(vals[0][0], 1))
+    collect(rep, vals, pid, nontrivial=lambda ev: ops_nontrivial(pid, ev),
+            key=lambda ev: [ev["op"], ev["a"], ev["b"], ev["pre"], ev["pre2"]])
     rep.exhaustive = False
     rep.extra["enumerated_by_tlc"] = sum(vlib.count_lines(t) for t in traces if ".rand." not in t)
+    return rep.finish()
+
+
+# ------------------------------------------------------------------------------------------------
+# C15: linear correction (BigInt)
+# ------------------------------------------------------------------------------------------------
+
+@register("C15")
+def check_linear(pid, tier, seed, scratch, replay):
+    import concurrent.futures as cf
+    rep = Report(pid, tier, seed)
+    thorough = tier == "thorough"
+    rep.rule = ("TLC enumerates every reference quadruple (a1#a2, d1#d2) and cue on grid 0..G, replayed at unit scales 1ns, 1us, "
+                "1ms, 1s, 1h; random driver: boundaries uniform in [0,24h] at ns resolution, slopes 25/23.976, 23.976/25, "
+                "30/29.97, 1/2..2 and random in [0.5,2], reference points incl. 1..1000 ns apart, cue boundaries placed on a1/a2. "
+                "Every boundary is judged by TLC in exact BigInt arithmetic (cross-multiplied, 1000 ns band). "
+                "Non-trivial = the call has at least one cue (distinct calls).")
+    rep.assumptions = ["BigInt.tla is self-checked against TLC's native integers on every run (base 10, all pairs in -R..R)",
+                       "nanosecond values are passed as limb arrays produced with math/big in the harness"]
+    drive = vlib.build_harness(scratch)
+    G = 4 if thorough else 3
+    parts = G + 1
+    nrand = 16 if thorough else 4
+    per = 25000 if thorough else 500
+
+    def run_gen(p):
+        out = scratch.path("lincases.%d.ndjson" % p)
+        r = tlc(scratch, "GenLinear", "GenLinear.cfg", env=dict(GEN_G=G, GEN_PART=p, GEN_PARTS=parts, GEN_OUT=out), heap="2g", timeout=1500)
+        require_ok(r, "GenLinear part %d" % p)
+        tr = scratch.path("trace.lin.%d.ndjson" % p)
+        vlib.run_drive(drive, ["linear", "-cases", out, "-out", tr, "-n0", str(p * 1000000)])
+        return tr
+
+    def run_rand(i):
+        tr = scratch.path("trace.linrand.%d.ndjson" % i)
+        vlib.run_drive(drive, ["linear", "-out", tr, "-seed", str(seed * 100 + i), "-num", str(per), "-n0", str(100000000 + i * 1000000)])
+        return tr
+
+    with cf.ThreadPoolExecutor(max_workers=vlib.NCPU) as ex:
+        mc1 = ex.submit(lambda: require_ok(tlc(scratch, "MC_BigInt", "MC_BigInt_T.cfg" if thorough else "MC_BigInt.cfg", workers=4), "MC_BigInt"))
+        mc2 = ex.submit(lambda: require_ok(tlc(scratch, "MC_Linear", "MC_Linear.cfg", workers=2), "MC_Linear"))
+        gf = [ex.submit(run_gen, p) for p in range(parts)]
+        rf = [ex.submit(run_rand, i) for i in range(nrand)]
+        traces = [f.result() for f in gf + rf]
+        vals = validate(ex, scratch, traces, "TraceLinear", "TraceLinear.cfg", per_jvm=400)
+        rep.add_mc("MC_BigInt", mc1.result())
+        rep.add_mc("MC_Linear", mc2.result())
+    collect(rep, vals, pid, nontrivial=lambda ev: len(ev["bs"]) > 0, key=lambda ev: [ev["raw"], ev["bs"]], is_first=lambda ev: True)
+    rep.extra["enumerated_by_tlc"] = sum(vlib.count_lines(t) for t in traces if "linrand" not in t)
     return rep.finish()
 
 
